@@ -63,6 +63,10 @@ type caller struct {
 type queue struct {
 	mu      sync.Mutex
 	callers []*caller
+	// dead is set (under mu) when the last caller left and the queue was taken
+	// out of the lock's map. A caller that still holds a reference to a dead
+	// queue must not enqueue on it; it fetches a fresh queue instead.
+	dead bool
 }
 
 func newQueue() *queue {
@@ -70,21 +74,31 @@ func newQueue() *queue {
 }
 
 // enqueue appends a new caller. If it lands at the head (queue was empty),
-// its ready channel is pre-closed so it can proceed immediately.
-func (q *queue) enqueue(c *caller) {
+// its ready channel is pre-closed so it can proceed immediately. It returns
+// false if the queue has been retired; the caller must then retry on the
+// queue currently registered for the key.
+func (q *queue) enqueue(c *caller) bool {
 	q.mu.Lock()
 	defer q.mu.Unlock()
+	if q.dead {
+		return false
+	}
 	wasEmpty := len(q.callers) == 0
 	q.callers = append(q.callers, c)
 	if wasEmpty {
 		close(c.ready)
 	}
+	return true
 }
 
 // remove deletes the caller with the given id from the queue. If the removed
 // caller was at the head, the next caller's ready channel is closed so it can
 // proceed. Returns true if the caller was found.
-func (q *queue) remove(id string) bool {
+//
+// When the last caller leaves, the queue is retired and unregistered from the
+// lock's map, so the map only holds keys that are currently locked or waited
+// on instead of every key ever used.
+func (l *lock) remove(key string, q *queue, id string) bool {
 	q.mu.Lock()
 	defer q.mu.Unlock()
 	for i, c := range q.callers {
@@ -100,6 +114,10 @@ func (q *queue) remove(id string) bool {
 		if wasHead && len(q.callers) > 0 {
 			// Wake the next waiter.
 			close(q.callers[0].ready)
+		}
+		if len(q.callers) == 0 {
+			q.dead = true
+			l.queues.CompareAndDelete(key, q)
 		}
 		return true
 	}
@@ -124,7 +142,10 @@ func (l *lock) Lock(ctx context.Context, key string, ttl time.Duration) (lockID 
 	}
 
 	q := l.getQueue(key)
-	q.enqueue(c)
+	for !q.enqueue(c) {
+		// the queue was retired between lookup and enqueue
+		q = l.getQueue(key)
+	}
 
 	// Wait until either we become the head of the queue (ready closed),
 	// or the caller's context is done.
@@ -140,7 +161,7 @@ func (l *lock) Lock(ctx context.Context, key string, ttl time.Duration) (lockID 
 			defer t.Stop()
 			select {
 			case <-t.C:
-				q.remove(lockID)
+				l.remove(key, q, lockID)
 			case <-c.done:
 				// Unlock (or another remove) already took us out;
 				// no work for the watchdog.
@@ -154,7 +175,7 @@ func (l *lock) Lock(ctx context.Context, key string, ttl time.Duration) (lockID 
 		// (race window: enqueue closed our ready right after we entered
 		// select), remove() still does the right thing — it wakes the
 		// next waiter when removing the head.
-		q.remove(lockID)
+		l.remove(key, q, lockID)
 		return "", errors.New("lock timeout")
 	}
 }
@@ -170,7 +191,7 @@ func (l *lock) Unlock(key string, lockID string) error {
 		return errors.New("caller not found")
 	}
 	q := v.(*queue)
-	if !q.remove(lockID) {
+	if !l.remove(key, q, lockID) {
 		return errors.New("caller not found")
 	}
 	return nil
